@@ -636,6 +636,7 @@ func facts() map[string]any {
 	out["max_dname_depth"] = resolver.VerifC12MaxDnameDepth()
 	out["max_cname_chase_depth"] = cache.VerifC12MaxCnameChaseDepth()
 	out["max_nsec3_memo_entries"] = dnssec.VerifC12MaxNSEC3HashMemoEntries()
+	out["max_nsec3_iterations"] = dnssec.VerifC12MaxNSEC3Iterations()
 	out["ede_code_network"] = int((&middleware.RecursionWorkLimitError{Kind: middleware.RecursionWorkOutboundQuery}).EDECode())
 	out["ede_code_dnssec"] = int((&middleware.RecursionWorkLimitError{Kind: middleware.RecursionWorkSignature}).EDECode())
 	agg := make([]bool, nKinds)
